@@ -1058,7 +1058,7 @@ func gbCorrupt(r *RNG, txt string, fs []gbFeat, origin string) (string, string) 
 		}
 		return string(b), "NUL-bytes"
 	case 16:
-		n := r.PickInt([]int{65535, 65536, 65537, 70000, 65534})
+		n := r.PickInt([]int{65535, 65536, 70000, 1<<20 - 2, 1<<20 - 1, 1 << 20, 1<<20 + 1, 1100000})
 		i := r.Intn(len(lines))
 		if r.Chance(1, 3) {
 			if j := pickLine(isQual); j >= 0 {
